@@ -13,7 +13,7 @@ from vf import ref_sgml
 from vf import universe as U
 from vf import wire
 from vf.checks import c02
-from vf.core import HarnessError, Tally
+from vf.core import vacuous, HarnessError, Tally
 
 LEVEL = "fault_enumeration"
 
@@ -174,22 +174,22 @@ def run(ctx):
             docs.append((r, "MAXD", False))
     tally.merge(ctx.pmap(doc_work, docs, chunk=1))
     if tally.counts.get("faulty-texts", 0) < 100000:
-        raise HarnessError(f"vacuous: {tally.counts}")
+        vacuous(tally, f"vacuous: {tally.counts}")
     if not tally.fails:
         for o in ("rejected-feed", "rejected-parse"):
             if o not in tally.outcomes:
-                raise HarnessError(f"vacuous: {o} never observed")
+                vacuous(tally, f"vacuous: {o} never observed")
     tally.sample({"valid": "<A><B1>x</B1><C.D_E></C.D_E></A>", "faults": ["<A><B1>x</B1><C.D_E></C.D_E>", "<A><B1>x</B1><C.D_E></A></C.D_E>", "<A><B1>x</B1><C.D_E></C.D_E></A>junk"]})
     cov = {
-        "evaluations": tally.counts["evaluations"],
-        "distinct_nontrivial": tally.counts["faulty-texts"],
+        "evaluations": tally.counts.get("evaluations", 0),
+        "distinct_nontrivial": tally.counts.get("faulty-texts", 0),
         "rule": ("all trees <=3 nodes (every byte truncation) + all 4-node trees with default data (token-level truncations)" if ctx.quick else
                  "all trees <=4 nodes with <=1 non-default leaf (every byte truncation) + the remaining 4-node trees (token-level truncations)") +
         f" over the C02 alphabets, in XML and SGML rendering, + MIN/MAXS{'/MAXD' if ctx.thorough else ''} documents of {len(ROOTS)} realistic roots; x every single fault: "
         "truncation, each aggregate end tag deleted / duplicated / misspelled (2 ways) / replaced by every other element's name, adjacent end tags transposed, stray end "
         "tag (2) or stray text (2) after every end tag, second top-level element (3); faulty texts the strict reference reader still accepts are skipped; each remaining text "
         "goes through TreeBuilder.feed+close and OFXTree.parse; distinct_nontrivial = malformed texts",
-        "bodies": tally.counts["bodies"],
+        "bodies": tally.counts.get("bodies", 0),
         "skipped_still_well_formed": tally.counts.get("still-well-formed", 0),
         "exhaustive": True,
     }
